@@ -269,6 +269,13 @@ public:
   /// \brief Stop I/O thread and release resources.
   void stop() override
   {
+    // A callback running on the I/O thread while another thread's stop() is draining
+    // (that stop() holds _stopMutex until it has joined THIS thread) must not wait for
+    // the mutex: it would deadlock, and the stop it asks for is already under way.
+    if (!_running.load() && std::this_thread::get_id() == _loop.get_id())
+    {
+      return;
+    }
     // Serialize concurrent stop() calls: the caller that loses the _running
     // exchange must not return while the winner is still joining the I/O thread
     // (callbacks would still be entered after that stop() had returned).
